@@ -55,6 +55,15 @@ func genRound3(c *Ctx, which ...string) {
 	if on("deferred-only") {
 		genDeferredFieldNotInInitial(c)
 	}
+	if on("complexity-keys") {
+		genComplexityKeys(c)
+	}
+	if on("deferred-set-fresh") {
+		genDeferredSetFresh(c)
+	}
+	if on("hasnext-per-payload") {
+		genHasNextPerPayload(c)
+	}
 }
 
 // (1) `__typename` answers the object's own name: the constant of the object function it stands in.
@@ -672,6 +681,156 @@ func genDeferredFieldNotInInitial(c *Ctx) {
 					c.R.Bad(key, c.ipos(bad), "a field scheduled on its deferred group falls through to the initial set's Concurrently in the same iteration: its resolver and hooks run twice, once for the initial payload and once for the deferred one")
 				} else {
 					c.R.OK(key, c.ipos(d), "the iteration ends after the deferred scheduling")
+				}
+			}
+		}
+	}
+}
+
+// (12) the Complexity dispatcher looks a cost function up under "Type.field" and hands it the arguments under their schema names.
+func genComplexityKeys(c *Ctx) {
+	c.R.Rule("complexity-keys", "generated Complexity: the switch subject is typeName + \".\" + field in this order, and inside the case for Type.field every constant key read from the argument map is the name of an argument the schema declares for that field", 2)
+	for _, g := range c.Gen {
+		fn := c.genFunc(g, "Complexity")
+		sch := c.schema(g)
+		if fn == nil || sch == nil {
+			continue
+		}
+		var pType, pField *ssa.Parameter
+		for _, p := range fn.Params {
+			switch p.Name() {
+			case "typeName":
+				pType = p
+			case "field":
+				pField = p
+			}
+		}
+		if pType == nil || pField == nil {
+			c.R.Note("gen:"+g.Name+"/Complexity", c.pos(fn.Pos()), "parameters typeName/field not found; not judged")
+			continue
+		}
+		// the subject: a concatenation whose leftmost operand is typeName
+		var subject ssa.Value
+		for _, b := range fn.Blocks {
+			for _, in := range b.Instrs {
+				if bo, ok := in.(*ssa.BinOp); ok && bo.Op == token.ADD && an.Strip(bo.Y) == ssa.Value(pField) || ok && bo.Op == token.ADD && an.Strip(bo.Y) == ssa.Value(pType) {
+					subject = bo
+				}
+			}
+		}
+		if subject == nil {
+			c.R.Note("gen:"+g.Name+"/Complexity", c.pos(fn.Pos()), "no concatenated switch subject; not judged")
+			continue
+		}
+		left := subject
+		for {
+			bo, ok := left.(*ssa.BinOp)
+			if !ok {
+				break
+			}
+			left = an.Strip(bo.X)
+		}
+		c.R.Check(left == ssa.Value(pType), "gen:"+g.Name+"/Complexity/subject", c.pos(fn.Pos()), "typeName + \".\" + field", "the switch subject is not typeName + \".\" + field: no case label (\"Type.field\") can match, every custom complexity function is ignored and the default cost is used")
+		cases := switchCases(fn, func(v ssa.Value) bool { return v == subject })
+		n := 0
+		for label, blk := range cases {
+			parts := strings.SplitN(label, ".", 2)
+			if len(parts) != 2 {
+				continue
+			}
+			def := sch.Types[parts[0]]
+			if def == nil {
+				continue
+			}
+			fd := def.Fields.ForName(parts[1])
+			if fd == nil {
+				continue
+			}
+			// lookups in blocks dominated by the case block
+			for _, b := range fn.Blocks {
+				if !(blk == b || blk.Dominates(b)) {
+					continue
+				}
+				for _, in := range b.Instrs {
+					lk, ok := in.(*ssa.Lookup)
+					if !ok {
+						continue
+					}
+					key, isC := an.ConstString(lk.Index)
+					if !isC {
+						continue
+					}
+					n++
+					c.R.Check(fd.Arguments.ForName(key) != nil, "gen:"+g.Name+"/Complexity/"+label+"/arg:"+key, c.ipos(in), "a declared argument", "the cost function of "+label+" is handed args[\""+key+"\"], but the field declares no argument of that name (the argument map is keyed by schema names): the type assertion on the missing entry panics, and every operation selecting the field is refused")
+				}
+			}
+		}
+		if n == 0 {
+			c.R.Note("gen:"+g.Name+"/Complexity/args", c.pos(fn.Pos()), "no field with arguments has a cost function in this configuration")
+		}
+	}
+}
+
+// (13) a deferred group gets a FieldSet of its own: never a window into the slice of collected fields.
+func genDeferredSetFresh(c *Ctx) {
+	c.R.Rule("deferred-set-fresh", "generated object functions: graphql.NewFieldSet is given either the collected fields themselves (the initial set) or a freshly built slice, never a sub-slice of the collected fields (a later AddField would overwrite the next collected field)", 10)
+	for _, g := range c.Gen {
+		for _, fn := range c.genFuncs(g) {
+			if fn.Parent() != nil || !isObjectFunc(fn) {
+				continue
+			}
+			var fields ssa.Value
+			for _, call := range an.CallsIn(fn, func(_ ssa.CallInstruction, ci an.CalleeInfo) bool { return ci.FullName() == pkgGraphql+".CollectFields" }) {
+				if v, ok := call.(ssa.Value); ok {
+					fields = v
+				}
+			}
+			for _, call := range an.CallsIn(fn, func(_ ssa.CallInstruction, ci an.CalleeInfo) bool { return ci.FullName() == pkgGraphql+".NewFieldSet" }) {
+				if call.Parent() != fn {
+					continue
+				}
+				arg := an.Strip(call.Common().Args[0])
+				bad := false
+				if sl, ok := arg.(*ssa.Slice); ok {
+					base := an.Strip(sl.X)
+					if base == fields || an.SameVar(base, fields) {
+						bad = true
+					}
+				}
+				c.R.Check(!bad, "gen:"+g.Name+"/"+fn.Name()+"/NewFieldSet", c.ipos(call), "the collected fields or a fresh slice", "a deferred group's FieldSet is built on a window into the slice of collected fields: adding a second field to the group overwrites the next collected field, which is then never delivered under its key")
+			}
+		}
+	}
+}
+
+// (14) every payload carries its own hasNext.
+func genHasNextPerPayload(c *Ctx) {
+	c.R.Rule("hasnext-per-payload", "generated Exec: the pointer stored into Response.HasNext points to a variable of the response function that builds that response (one per payload), not to a variable of Exec shared by all payloads", 2)
+	for _, g := range c.Gen {
+		ex := c.genFunc(g, "Exec")
+		if ex == nil {
+			continue
+		}
+		for _, fn := range an.WithClosures(ex) {
+			for _, b := range fn.Blocks {
+				for _, in := range b.Instrs {
+					st, ok := in.(*ssa.Store)
+					if !ok {
+						continue
+					}
+					fa, ok := st.Addr.(*ssa.FieldAddr)
+					if !ok || fieldNameOf(fa) != "HasNext" || !strings.HasSuffix(fa.X.Type().String(), "graphql.Response") {
+						continue
+					}
+					v := an.Strip(st.Val)
+					local := false
+					if a, isA := v.(*ssa.Alloc); isA && a.Parent() == fn {
+						local = true
+					}
+					if _, isFV := v.(*ssa.FreeVar); isFV {
+						local = false
+					}
+					c.R.Check(local, "gen:"+g.Name+"/Exec/"+fn.Name()+"/HasNext", c.ipos(in), "a variable of this response function", "Response.HasNext points to a variable shared by every payload of the operation: a payload that is still queued (multipart batches them) changes its hasNext when the next payload is computed — the initial part says hasNext:false although increments follow")
 				}
 			}
 		}
